@@ -77,7 +77,7 @@ def iter (step : Nat → Option Nat) : Nat → Nat → Nat
   | n + 1, i => match step i with | some j => iter step n j | none => i
 
 /-- `w` / `W`: to the start of the `cnt`-th next word; at the end of the buffer, to its last character -/
-def wordFwd (big : Bool) (b : Buf) (p : Pos) (cnt : Nat) : Pos :=
+def wordFwdRaw (big : Bool) (b : Buf) (p : Pos) (cnt : Nat) : Pos :=
   let f := flat b
   let k := if big then clsBig else cls
   match indexOf f p with
@@ -87,10 +87,12 @@ def wordFwd (big : Bool) (b : Buf) (p : Pos) (cnt : Nat) : Pos :=
       match nextWhere f.length (wordStart k f) i with
       | some j => some j
       | none => if i + 1 < f.length then some (f.length - 1) else none
-    restOn b (posAt f (iter step cnt i))
+    posAt f (iter step cnt i)
+
+def wordFwd (big : Bool) (b : Buf) (p : Pos) (cnt : Nat) : Pos := restOn b (wordFwdRaw big b p cnt)
 
 /-- `b` / `B`: to the start of the `cnt`-th previous word; at the start of the buffer, to its first character -/
-def wordBack (big : Bool) (b : Buf) (p : Pos) (cnt : Nat) : Pos :=
+def wordBackRaw (big : Bool) (b : Buf) (p : Pos) (cnt : Nat) : Pos :=
   let f := flat b
   let k := if big then clsBig else cls
   match indexOf f p with
@@ -100,10 +102,12 @@ def wordBack (big : Bool) (b : Buf) (p : Pos) (cnt : Nat) : Pos :=
       match prevWhere (wordStart k f) i with
       | some j => some j
       | none => if i > 0 then some 0 else none
-    restOn b (posAt f (iter step cnt i))
+    posAt f (iter step cnt i)
+
+def wordBack (big : Bool) (b : Buf) (p : Pos) (cnt : Nat) : Pos := restOn b (wordBackRaw big b p cnt)
 
 /-- `e` / `E`: to the end of the `cnt`-th next word -/
-def wordEndFwd (big : Bool) (b : Buf) (p : Pos) (cnt : Nat) : Pos :=
+def wordEndFwdRaw (big : Bool) (b : Buf) (p : Pos) (cnt : Nat) : Pos :=
   let f := flat b
   let k := if big then clsBig else cls
   match indexOf f p with
@@ -113,7 +117,9 @@ def wordEndFwd (big : Bool) (b : Buf) (p : Pos) (cnt : Nat) : Pos :=
       match nextWhere f.length (wordEnd k f) i with
       | some j => some j
       | none => if i + 1 < f.length then some (f.length - 1) else none
-    restOn b (posAt f (iter step cnt i))
+    posAt f (iter step cnt i)
+
+def wordEndFwd (big : Bool) (b : Buf) (p : Pos) (cnt : Nat) : Pos := restOn b (wordEndFwdRaw big b p cnt)
 
 /-! ### within a line -/
 /-- `f c` / `t c` (dir = +1) and `F c` / `T c` (dir = -1): the `cnt`-th occurrence of `c` after / before the cursor -/
